@@ -8,7 +8,7 @@ C15 harnesses.
  h_split  real hive_cosim.crank: crank(a) then crank(b) == crank(a+b) == LocalSimulationRunner.run over the same
           interval, on a payload whose Update carries the real UpdateRequestsFromFile (2 rows with symbolic times),
           CancelRequests and StepSimulation with the built-in Dispatcher; compared are the per-step states
-          (modulo instance ids) and the event lists.  CASE = a * 4 + b  (a + b <= 3).
+          (modulo instance ids) and the event lists.  CASE = a * 4 + b  (a + b <= 3), + 16: Dispatcher configured before ChargingFleetManager.
 """
 import os
 from dataclasses import replace
@@ -74,6 +74,20 @@ def _gens(env):
     return (ChargingFleetManager(env.config.dispatcher), Dispatcher(env.config.dispatcher))
 
 
+from dataclasses import dataclass as _dc
+from nrel.hive.dispatcher.instruction_generator.instruction_generator import InstructionGenerator as _IG
+
+
+@_dc(frozen=True)
+class TurnCounter(_IG):
+    """a controller that keeps state the documented way: it returns an updated copy of itself every step"""
+
+    turn: int = 0
+
+    def generate_instructions(self, simulation_state, environment):
+        return replace(self, turn=self.turn + 1), ()
+
+
 def h_tick(T: int, dt: int, e: float) -> bool:
     """
     pre: 0 <= T <= 2000000000 and 1 <= dt <= 3600 and 1 <= e <= 50
@@ -126,19 +140,23 @@ def h_run(start: int, span: int, dt: int, off: int) -> bool:
     return stepped is not None and stepped.s.sim_time == start + off + dt
 
 
-A_STEPS = CASE // 4
+A_STEPS = (CASE % 16) // 4
 B_STEPS = CASE % 4
+DISPATCHER_FIRST = CASE >= 16  # configured generator order: Dispatcher first or ChargingFleetManager first
 
 
-def _payload(start, dt, d1, d2, e, n_total):
+def _payload(start, dt, d1, d2, e, n_total, dispatcher_first=False):
     rows = [h_req._row("q1", d1), h_req._row("q2", d2)]
     stepper = DictReaderStepper.from_iterator(iter(rows), "departure_time", parser=h_req._parser)
     env, rec = _env(start, start + n_total * dt, dt)
     v = replace(A.V0, energy=immutables.Map({A.E: e}), position=A.POS[3])
     sim = sso.add_vehicle_safe(A.SIM0._replace(sim_time=mk_time(start), sim_timestep_duration_seconds=dt), v).unwrap()
+    gens = _gens(env)
+    if dispatcher_first:
+        gens = (gens[1], gens[0])
     upd = Update(
         (UpdateRequestsFromFile(reader=stepper, rate_structure=RequestRateStructure()), CancelRequests()),
-        StepSimulation.from_tuple(_gens(env)),
+        StepSimulation.from_tuple(gens + (TurnCounter(),)),
     )
     return RunnerPayload(sim, env, upd), rec
 
@@ -155,19 +173,22 @@ def h_split(start: int, dt: int, d1: int, d2: int, e: float) -> bool:
     """
     a, b = A_STEPS, B_STEPS
     n = a + b
-    rp1, rec1 = _payload(start, dt, d1, d2, e, n)
+    dfirst = DISPATCHER_FIRST
+    rp1, rec1 = _payload(start, dt, d1, d2, e, n, dfirst)
     r_a = hive_cosim.crank(rp1, a)  # ---- real code
     # a co-simulation user hands a generator back between two calls (runner_payload_ops): here the same, non-last
     # generator is re-injected unchanged, which must not alter anything -- in particular not the priority order
     from nrel.hive.runner import runner_payload_ops as rpo
 
     mid = r_a.runner_payload
-    cfm = rpo.get_instruction_generator(mid, "ChargingFleetManager")
-    mid = rpo.update_instruction_generator(mid, cfm)
+    first_name = mid.u.step_update.instruction_generator_order[0]
+    mid = rpo.update_instruction_generator(mid, rpo.get_instruction_generator(mid, first_name))
+    # ... and the whole (unchanged) generator tuple is set again through the bulk API
+    mid = rpo.set_instruction_generators(mid, mid.u.step_update.ordered_instruction_generators)
     r_ab = hive_cosim.crank(mid, b)
-    rp2, rec2 = _payload(start, dt, d1, d2, e, n)
+    rp2, rec2 = _payload(start, dt, d1, d2, e, n, dfirst)
     r_n = hive_cosim.crank(rp2, n)
-    rp3, rec3 = _payload(start, dt, d1, d2, e, n)
+    rp3, rec3 = _payload(start, dt, d1, d2, e, n, dfirst)
     r_run = LocalSimulationRunner.run(rp3)
     s1, s2, s3 = r_ab.runner_payload.s, r_n.runner_payload.s, r_run.s
     note("split", a, b, len(s2.requests), A.KIND_NAMES[A.kind_of_state(s2.vehicles["v0"].vehicle_state)])
@@ -175,6 +196,13 @@ def h_split(start: int, dt: int, d1: int, d2: int, e: float) -> bool:
         return False
     if not (I.deq(I.snap_sim(s1, True), I.snap_sim(s2, True)) and I.deq(I.snap_sim(s2, True), I.snap_sim(s3, True))):
         return False
+    # the stateful controller was carried through every step of every variant
+    for rp in (r_ab.runner_payload, r_n.runner_payload, r_run):
+        tc = rp.u.step_update.instruction_generators.get("TurnCounter")
+        if tc is None or tc.turn != n:
+            return False
+        if tuple(rp.u.step_update.instruction_generator_order) != tuple(rp1.u.step_update.instruction_generator_order):
+            return False
     ev1, ev2, ev3 = _events(rec1), _events(rec2), _events(rec3)
     if not (len(ev1) == n and len(ev2) == n and len(ev3) == n):
         return False
